@@ -227,7 +227,8 @@ SendRelease == /\ Msg("send", "release") /\ Consume
                /\ ~\E x \in lh : x[2] = E.e
                /\ imp' = [imp EXCEPT ![E.e] = 0]
                /\ Keep(<<ans, exp, qst, qtag, qrel, lh, started, callseq, appret, shut, caps, lres, pret, closed, aborted, emb>>)
-SendAbort == /\ Msg("send", "abort") /\ Consume /\ aborted' = TRUE
+\* the connection gives up only when the application closes it (well-formed peers, no transport faults in these scripts)
+SendAbort == /\ Msg("send", "abort") /\ Consume /\ closed /\ aborted' = TRUE
              /\ Keep(<<ans, exp, qst, qtag, qrel, imp, lh, started, callseq, appret, shut, caps, lres, pret, closed, emb>>)
 \* Disembargo senderLoopback: the connection announces an embargo on a result it has pipelined on; the promised answer it names
 \* must still be addressable by the peer (Return received, Finish not yet sent)
@@ -315,8 +316,12 @@ LCallCap == /\ Ev("l-call") /\ E.cap # "" /\ Consume
             /\ caps' = caps \cup {E.cap}
             /\ emb' = [emb EXCEPT !.lcap = @ \cup {<<E.tag, E.cap>>}]
             /\ Keep(<<ans, exp, qst, qtag, qrel, imp, lh, started, callseq, appret, shut, lres, pret, closed, aborted>>)
-Passive == /\ (Ev("l-bootstrap") \/ (Ev("l-call") /\ E.cap = "") \/ Ev("app-cancelled") \/ Ev("reported") \/ Ev("fault")
-               \/ Ev("transport-closed") \/ Ev("done") \/ Ev("end") \/ Ev("peer-deliver") \/ Ev("peer-echo") \/ Ev("view"))
+\* an error report that blames the peer: the peers of these scripts are well formed, so there is none while the connection is open
+Reported == /\ Ev("reported") /\ Consume
+            /\ (E.kind = "blames-peer" => closed)
+            /\ Keep(<<ans, exp, qst, qtag, qrel, imp, lh, started, callseq, appret, shut, caps, lres, pret, closed, aborted, emb>>)
+Passive == /\ (Ev("l-bootstrap") \/ (Ev("l-call") /\ E.cap = "") \/ Ev("app-cancelled") \/ Ev("fault")
+               \/ Ev("transport-closed") \/ Ev("done") \/ Ev("end") \/ Ev("peer-deliver") \/ Ev("peer-echo") \/ Ev("view") \/ Ev("held") \/ Ev("hold-expired") \/ Ev("released"))
            /\ Consume
            /\ Keep(<<ans, exp, qst, qtag, qrel, imp, lh, started, callseq, appret, shut, caps, lres, pret, closed, aborted, emb>>)
 
@@ -338,7 +343,7 @@ CloseReturned == /\ Ev("close-returned") /\ Consume
 
 Next == Reset \/ RecvBootstrap \/ RecvCall \/ RecvFinish \/ RecvRelease \/ RecvReturn \/ RecvDisembargo \/ RecvOther
         \/ SendReturn \/ SendReturnNoBody \/ SendReturnForwarded \/ SendQuestion \/ SendFinish \/ SendRelease \/ SendAbort
-        \/ SendDisembargoSender \/ SendDisembargoEcho \/ SendOther \/ LPCall \/ LCallCap
+        \/ SendDisembargoSender \/ SendDisembargoEcho \/ SendOther \/ LPCall \/ LCallCap \/ Reported
         \/ AppStart \/ AppReturn \/ Shutdown \/ CloseInvoked \/ LHandle \/ LRelease \/ LocalResult \/ Passive \/ Quiesce \/ CloseReturned
 Spec == Init /\ [][Next]_vars
 
